@@ -27,6 +27,11 @@ def run(tier, seed, t0):
         if c.idx >= 1_000_000:
             c2 = vlib.Case(c.idx - 1_000_000); return base(c2)
         return {"cmd": f"/verif/wl-core/target/release/sys nonblock --seed {seed} --from {c.idx} --to {c.idx+1}"}
+    from checks import common_hook as ch
+    try:
+        cases += ch.cases(PID, seed, tier, 4 if tier != "thorough" else 20)
+    except vlib.BuildError as e:
+        c = vlib.Case(7_000_000); c.engine = "LD_PRELOAD interposition"; c.verdict = "inconclusive"; c.sig = "harness/hook-dylib-build-failed"; c.detail = str(e); cases.append(c)
     return vlib.finish(PID, tier, seed, "exploration", cases, rule=RULE, t0=t0, replay_builder=rb,
                        assumptions=["unix stream sockets on this kernel", "400 ms threshold sits 100x above a healthy EAGAIN return and well below the 700 ms at which the peer acts"])
 
